@@ -809,6 +809,21 @@ func (bp *boundsProver) condFacts(c ssa.Value, truth bool, d int) []lin {
 				}
 			}
 		}
+		// x != max of x's unsigned type: x ≤ max − 1
+		if len(diff.t) == 1 {
+			for a, k := range diff.t {
+				v, isV := a.(ssa.Value)
+				if !isV || !isUnsignedT(v.Type()) || intBits(v.Type()) > 32 {
+					continue
+				}
+				mx := int64(1)<<uint(intBits(v.Type())) - 1
+				if k == 1 && diff.c == -mx || k == -1 && diff.c == mx {
+					l := newLin(mx - 1)
+					l.t[a] = -1
+					return []lin{l}
+				}
+			}
+		}
 	}
 	return nil
 }
@@ -929,7 +944,7 @@ func checkBounds(fn *ssa.Function) []boundsSite {
 			for _, op := range in.Operands(nil) {
 				if *op != nil && isIntegerT((*op).Type()) {
 					siteFacts = append(siteFacts[:len(siteFacts):len(siteFacts)], consumedFacts(bp, *op)...)
-					siteFacts = append(siteFacts, libraryFacts(bp, *op)...)
+					siteFacts = append(siteFacts, libraryFacts(bp, *op, facts)...)
 				}
 			}
 			for _, g := range goals {
@@ -947,7 +962,7 @@ func checkBounds(fn *ssa.Function) []boundsSite {
 
 // libraryFacts: bounds the standard library guarantees for values occurring in v:
 // bytes.NewReader(x).Len() ≤ len(x) (the unread part of x), likewise Size().
-func libraryFacts(bp *boundsProver, v ssa.Value) []lin {
+func libraryFacts(bp *boundsProver, v ssa.Value, facts []lin) []lin {
 	var out []lin
 	seen := map[ssa.Value]bool{}
 	var walk func(ssa.Value, int)
@@ -967,6 +982,62 @@ func libraryFacts(bp *boundsProver, v ssa.Value) []lin {
 		case *ssa.Call:
 			sc := x.Call.StaticCallee()
 			if sc == nil || len(x.Call.Args) != 1 {
+				return
+			}
+			// math/bits: LeadingZerosN(a), TrailingZerosN(a), LenN(a) ≤ N; with a ≠ 0 (shown from the facts in
+			// force: a ≥ 1, or a = ^y with y below its type's maximum) LeadingZerosN, TrailingZerosN ≤ N−1 and LenN ≥ 1
+			if name := sc.String(); strings.HasPrefix(name, "math/bits.") {
+				fn := strings.TrimPrefix(name, "math/bits.")
+				kind, n := "", int64(0)
+				for _, k := range []string{"LeadingZeros", "TrailingZeros", "Len"} {
+					if strings.HasPrefix(fn, k) {
+						kind = k
+						switch strings.TrimPrefix(fn, k) {
+						case "8":
+							n = 8
+						case "16":
+							n = 16
+						case "32":
+							n = 32
+						case "64":
+							n = 64
+						case "":
+							n = int64(intBits(x.Call.Args[0].Type()))
+						}
+					}
+				}
+				if kind == "" || n == 0 {
+					return
+				}
+				r := bp.linOf(x, 0)
+				up := newLin(n).add(r, -1)
+				out = append(out, up)
+				arg := x.Call.Args[0]
+				nonZero := false
+				g := bp.linOf(arg, 0)
+				g.c--
+				if bp.prove(g, facts, 3) {
+					nonZero = true
+				}
+				if u, isU := stripIntConv(arg).(*ssa.UnOp); isU && u.Op == token.XOR {
+					if bt, isB := u.X.Type().Underlying().(*types.Basic); isB && isUnsignedT(u.X.Type()) && intBits(u.X.Type()) <= 32 {
+						_ = bt
+						mx := int64(1)<<uint(intBits(u.X.Type())) - 1
+						g2 := newLin(mx-1).add(bp.linOf(u.X, 0), -1)
+						if bp.prove(g2, facts, 3) {
+							nonZero = true
+						}
+					}
+				}
+				if nonZero {
+					if kind == "Len" {
+						l := bp.linOf(x, 0)
+						l.c--
+						out = append(out, l)
+					} else {
+						out = append(out, newLin(n-1).add(r, -1))
+					}
+				}
 				return
 			}
 			if s := sc.String(); s != "(*bytes.Reader).Len" && s != "(*bytes.Reader).Size" {
